@@ -34,6 +34,7 @@ def _orth_form(ctx, n, r, l2r=True, fixed_q=False):
 
 def h_beam(ctx, n, r, k, fixed_q=False):
     Y = _orth_form(ctx, n, r, fixed_q=fixed_q)
+    ctx.assume(ctx.gt(sumsq(Y[0]), 0), 'the tensor is not identically zero')
     F = ref_full(Y)
     Y0 = [G.copy() for G in Y]
     i = teneva.optima_tt_beam(Y, k, l2r=True)
@@ -76,7 +77,7 @@ def h_max(ctx, n, k):
 def instances(tier):
     out = []
     quick = tier == 'quick'
-    G = {'generic_divisors': True, 'symbolic_signs': False}
+    G = {'symbolic_signs': False}
     for n, r, k, fq in ([([2, 2], 1, 1, False), ([2, 2], 2, 4, True), ([2, 2], 2, 1, True)] if quick else
                         [([2, 2], 1, 1, False), ([2, 2], 2, 4, True), ([2, 2], 2, 4, False), ([2, 2], 2, 1, False),
                          ([2, 3], 2, 6, False), ([2, 2, 2], 1, 1, False), ([2, 2, 2], 1, 2, False)]):
@@ -94,6 +95,6 @@ BOUNDS = {
 }
 OUTSIDE = ('optima_tt (min/max through sub/mul of derived tensors: factorisations of Kronecker cores are not encodable), optima_qtt, '
            'optima_tt_maxvol, the functional variant (root completeness of a numerical eigenvalue solver); larger shapes '
-           '(sorting N symbolic keys costs up to N! paths); exactly zero tensors (q_max = 0 is a generic divisor)')
+           '(sorting N symbolic keys costs up to N! paths); the exactly zero tensor (q_max = 0)')
 ASSUMPTIONS = ['tensor given in right-orthogonal form (assume-guarantee with C04/C16: orthogonalize returns such a form)',
                'stabilisation scale: E <= v < 2E', 'exact real arithmetic']
